@@ -1959,8 +1959,10 @@ class PGPKey(Armorable, ParentRef, PGPObject):
             # RFC 4880 says that primary keys *must* be capable of certification
             return {KeyFlags.Certify} | (user.selfsig.key_flags if user.selfsig else set())
 
-        # the most recent binding signature governs (signatures are kept sorted by creation time)
-        return next(reversed(list(self.self_signatures))).key_flags
+        # the most recent binding signature governs (signatures are kept sorted by creation time); a subkey that
+        # has no valid binding signature (none by the primary key, or expired ones only) has no capability at all
+        bsig = next(reversed(list(self.self_signatures)), None) if self.parent is not None else None
+        return bsig.key_flags if bsig is not None else set()
 
     def _sign(self, subject, sig, **prefs):
         """
